@@ -175,8 +175,13 @@ def _parse_dict(sig, pos, adepth, sdepth, ddepth, strict):
     return p + 1
 
 
-def split_signature(sig: bytes, strict: bool = True):
+STRICT = True   # default reading of the dict-entry nesting rule (see _parse_dict)
+
+
+def split_signature(sig: bytes, strict=None):
     """Return the list of single complete types, or raise SigError."""
+    if strict is None:
+        strict = STRICT
     if len(sig) > MAX_SIG:
         raise SigError('sig.too-long')
     out = []
